@@ -136,6 +136,18 @@ def stepLine (net : Net) (toks : List String) : Net × String :=
         match p.pl with
         | .cell c => finish net (processCell sym n p.src c (parseChoice rest))
         | .destroy signer cid ok => finish net (onDestroy n signer cid ok)
+  | "dlvs" :: idx :: src :: rest =>
+    -- a genuine datagram is taken off the wire and handed to its destination from another source address
+    match idx.toNat?.bind (removeAt net.flight), src.toNat? with
+    | some (p, fl), some src =>
+      let net := { net with flight := fl }
+      match getNode net p.dst with
+      | none => (net, "S= T=- L=")
+      | some n =>
+        match p.pl with
+        | .cell c => finish net (processCell sym n src c (parseChoice rest))
+        | .destroy signer cid ok => finish net (onDestroy n signer cid ok)
+    | _, _ => bad
   | "fc" :: node :: src :: cid :: pt :: re :: _layers :: spec :: _ =>
     match nats [node, src, cid, pt, re] with
     | some [node, src, cid, pt, re] =>
